@@ -151,7 +151,10 @@ def check(ctx):
     # keyword arguments; in the state class itself or, when that helper was inlined, in the streams' own statistics())
     rel_, scls = ctx.repo.cls("MemoryObjectStreamStatistics", MEM)
     fields_ = [x.target.id for x in scls.body if isinstance(x, ast.AnnAssign) and isinstance(x.target, ast.Name)]
-    want_ = ["len({S}.buffer)", "{S}.max_buffer_size", "{S}.open_send_channels", "{S}.open_receive_channels", "len({S}.waiting_senders)", "len({S}.waiting_receivers)"]
+    # by field *name* (the record's public meaning), not by position: swapping two declarations of the record must not go unnoticed
+    want_ = {"current_buffer_used": "len({S}.buffer)", "max_buffer_size": "{S}.max_buffer_size", "open_send_streams": "{S}.open_send_channels",
+             "open_receive_streams": "{S}.open_receive_channels", "tasks_waiting_send": "len({S}.waiting_senders)",
+             "tasks_waiting_receive": "len({S}.waiting_receivers)"}
     builds = []
     for f_ in ctx.repo.funcs_in(MEM):
         for n_ in own_walk(f_.node):
@@ -167,7 +170,7 @@ def check(ctx):
             if k_.arg:
                 vals[k_.arg] = k_.value
         S = "self" if f_.cls == "_MemoryObjectStreamState" else "self._state"
-        ok = len(fields_) == 6 and all(fl in vals and ast.unparse(vals[fl]) == w.format(S=S) for fl, w in zip(fields_, want_))
+        ok = set(fields_) == set(want_) and all(fl in vals and ast.unparse(vals[fl]) == w.format(S=S) for fl, w in want_.items())
         ctx.ob("R13-a", f_, "statistics() reports the state fields themselves", ok, node=stmt_of(c_),
                detail="" if ok else "the statistics record is not (len(buffer), max_buffer_size, open_send_channels, open_receive_channels, "
                "len(waiting_senders), len(waiting_receivers)) field for field", by=("field-for-field",))
@@ -275,3 +278,10 @@ def check(ctx):
     # ---- R13-d `async for` ends exactly on EndOfStream (a closed own handle is an error, not a clean end) -----------------------------
     from .common import iteration_protocol
     iteration_protocol(ctx, "R13-d", "UnreliableObjectReceiveStream")
+
+    # ---- R13-e "about to be cancelled" (the test by which send_nowait skips a receiver, whose wake-up then never comes) is computed by a
+    # correct walk of the scope chain: a receiver waiting in a plain scope inside a shield inside a cancelled scope is *not* about to be
+    # cancelled (shared with C04/R04-a)
+    from .walkers import check_walker
+    from .common import A as _A
+    check_walker(ctx, "R13-e", ctx.fn("CancelScope._effectively_cancelled", _A))
